@@ -1,1 +1,318 @@
-import SwcVerif.Gen.VolumeTerms
+import SwcVerif.Model.Volume
+import SwcVerif.Proofs.Traverse
+import SwcVerif.Proofs.Additive
+import Mathlib.Tactic.Ring
+import Mathlib.Tactic.Linarith
+import Mathlib.Tactic.FieldSimp
+import Mathlib.Algebra.Order.Field.Basic
+import Mathlib.Algebra.BigOperators.Intervals
+import Mathlib.Algebra.Order.BigOperators.Ring.Finset
+/-! # C14 — tree volume is the volume of the union of node spheres and connecting frusta
+
+* the per-node value is the definition GENERATED from `analysis/volume.py` (`Gen.VolTerms.nodeVolume`:
+  which terms enter with which sign from which accuracy level);
+* the accumulation over the tree is C04's traversal machine with the `leave` callback of the code
+  (`Vol.treeVolume`), so "for every tree" is by C04's induction;
+* the union identity is set algebra over an arbitrary finitely additive `m` (`Additive.FinAdd`), with the
+  geometric hypotheses of the property in the form "earlier parts meet the k-th frustum only inside
+  sphere k, and meet sphere k+1 only inside frustum k" (implied by: non-adjacent parts are disjoint,
+  consecutive spheres overlap only inside their frustum — `lens_inside_frustum` — and consecutive
+  frusta only inside the sphere between them). -/
+namespace C14
+open Vol Trav Gen.VolTerms Additive
+
+-- sum over all nodes of a rose of a per-node quantity `g node childrenIds`
+mutual
+def sumRose (g : Int → List Int → ℝ) : Rose → ℝ
+  | .node i ks => sumRoseL g ks + g i (ks.map Rose.id)
+def sumRoseL (g : Int → List Int → ℝ) : List Rose → ℝ
+  | [] => 0
+  | r :: rs => sumRoseL g rs + sumRose g r
+end
+
+mutual
+theorem spec_vol (acc : Nat) (terms : Int → List Int → Terms ℝ) :
+    ∀ (r : Rose) (pv : Option Unit) (v : ℝ),
+      spec volEnter (volLeave acc terms) r pv v = (v + sumRose (fun i ks => nodeVal acc (terms i ks)) r, r.id)
+  | .node i ks, pv, v => by
+    simp only [spec, volEnter, volLeave, sumRose, Rose.id]
+    rw [specRev_vol acc terms ks () v]
+    simp only [add_assoc]
+theorem specRev_vol (acc : Nat) (terms : Int → List Int → Terms ℝ) :
+    ∀ (ks : List Rose) (cur : Unit) (v : ℝ),
+      specRev volEnter (volLeave acc terms) ks cur v
+        = (v + sumRoseL (fun i ks => nodeVal acc (terms i ks)) ks, ks.map Rose.id)
+  | [], _, v => by simp [specRev, sumRoseL]
+  | r :: rs, cur, v => by
+    simp only [specRev, sumRoseL, List.map_cons]
+    rw [specRev_vol acc terms rs cur v, spec_vol acc terms r]
+    simp only [add_assoc]
+end
+
+/-- **every tree**: the reported volume is the sum over all nodes of the generated per-node value,
+each node seeing exactly its own children (any shape, depth, numbering). -/
+theorem tree_volume_eq_sum (acc : Nat) (terms : Int → List Int → Terms ℝ) (ids pids : List Int) (r : Rose)
+    (h : Represents r ids pids) :
+    treeVolume acc terms ids pids r.id (2 * r.size) = sumRose (fun i ks => nodeVal acc (terms i ks)) r := by
+  have := (C04_core ids pids r h acc terms)
+  simpa using this
+where
+  C04_core (ids pids : List Int) (r : Rose) (h : Represents r ids pids) (acc : Nat) (terms : Int → List Int → Terms ℝ) :
+      treeVolume acc terms ids pids r.id (2 * r.size) = 0 + sumRose (fun i ks => nodeVal acc (terms i ks)) r := by
+    have hm := main (tableKids ids pids) (volEnter (K := ℝ)) (volLeave acc terms) r h.1 h.2 [] (fun _ => none) (fun _ => none) (0 : ℝ)
+    obtain ⟨_, h2, _, _, _⟩ := hm
+    simp only [treeVolume, init]
+    rw [h2, spec_vol]
+
+/-! ## the accuracy levels (read off the generated definition) -/
+
+theorem node_level1 (t : Terms ℝ) : nodeVal 1 t = t.s := by simp [nodeVal, nodeVolume]
+theorem node_level2 (t : Terms ℝ) : nodeVal 2 t = t.s + t.f := by simp [nodeVal, nodeVolume]
+theorem node_level3 (acc : Nat) (h3 : 3 ≤ acc) (h5 : acc < 5) (t : Terms ℝ) :
+    nodeVal acc t = t.s + t.f - t.p - t.c := by
+  have h2 : 2 ≤ acc := by omega
+  have h5' : ¬ 5 ≤ acc := by omega
+  simp [nodeVal, nodeVolume, h2, h3, h5']
+theorem node_level5 (acc : Nat) (h5 : 5 ≤ acc) (t : Terms ℝ) :
+    nodeVal acc t = t.s + t.f - t.p - t.c - t.q := by
+  have h2 : 2 ≤ acc := by omega
+  have h3 : 3 ≤ acc := by omega
+  simp [nodeVal, nodeVolume, h2, h3, h5]
+
+theorem sumRose_congr (g g' : Int → List Int → ℝ) (h : ∀ i ks, g i ks = g' i ks) : ∀ r, sumRose g r = sumRose g' r := by
+  have : g = g' := by funext i ks; exact h i ks
+  intro r; rw [this]
+
+/-- **level 1, every tree**: the sum of the node spheres -/
+theorem level1_every_tree (terms : Int → List Int → Terms ℝ) (ids pids : List Int) (r : Rose) (h : Represents r ids pids) :
+    treeVolume 1 terms ids pids r.id (2 * r.size) = sumRose (fun i ks => (terms i ks).s) r := by
+  rw [tree_volume_eq_sum _ _ _ _ _ h]
+  exact sumRose_congr _ _ (fun i ks => node_level1 _) r
+
+/-- **level 2, every tree**: node spheres plus connecting frusta -/
+theorem level2_every_tree (terms : Int → List Int → Terms ℝ) (ids pids : List Int) (r : Rose) (h : Represents r ids pids) :
+    treeVolume 2 terms ids pids r.id (2 * r.size) = sumRose (fun i ks => (terms i ks).s + (terms i ks).f) r := by
+  rw [tree_volume_eq_sum _ _ _ _ _ h]
+  exact sumRose_congr _ _ (fun i ks => node_level2 _) r
+
+/-- **levels 3 and 4, every tree**: spheres + (frustum − parent-sphere∩frustum − child-sphere∩frustum); the
+two-sphere lens does NOT enter (it lies inside the frustum and is already removed twice and added once) -/
+theorem level3_every_tree (acc : Nat) (h3 : 3 ≤ acc) (h5 : acc < 5) (terms : Int → List Int → Terms ℝ) (ids pids : List Int)
+    (r : Rose) (h : Represents r ids pids) :
+    treeVolume acc terms ids pids r.id (2 * r.size)
+      = sumRose (fun i ks => (terms i ks).s + (terms i ks).f - (terms i ks).p - (terms i ks).c) r := by
+  rw [tree_volume_eq_sum _ _ _ _ _ h]
+  exact sumRose_congr _ _ (fun i ks => node_level3 acc h3 h5 _) r
+
+theorem level5_every_tree (acc : Nat) (h5 : 5 ≤ acc) (terms : Int → List Int → Terms ℝ) (ids pids : List Int)
+    (r : Rose) (h : Represents r ids pids) :
+    treeVolume acc terms ids pids r.id (2 * r.size)
+      = sumRose (fun i ks => (terms i ks).s + (terms i ks).f - (terms i ks).p - (terms i ks).c - (terms i ks).q) r := by
+  rw [tree_volume_eq_sum _ _ _ _ _ h]
+  exact sumRose_congr _ _ (fun i ks => node_level5 acc h5 _) r
+
+/-! ## the union of a chain S₀ F₀ S₁ F₁ … Sₙ -/
+section chain
+variable {α : Type}
+
+/-- everything strictly before sphere `k` -/
+def before (S F : ℕ → Set α) : ℕ → Set α
+  | 0 => ∅
+  | k+1 => before S F k ∪ S k ∪ F k
+/-- spheres `0..k` and frusta `0..k-1` -/
+def upTo (S F : ℕ → Set α) (k : ℕ) : Set α := before S F k ∪ S k
+
+/-- inclusion–exclusion value of the chain -/
+def chainValue (m : Set α → ℝ) (S F : ℕ → Set α) (n : ℕ) : ℝ :=
+  (Finset.range (n+1)).sum (fun i => m (S i))
+    + (Finset.range n).sum (fun i => m (F i) - m (S i ∩ F i) - m (S (i+1) ∩ F i))
+
+/-- **set-algebra layer.**  If the parts before sphere `k` meet frustum `k` only inside sphere `k`, and
+the parts up to sphere `k` meet sphere `k+1` only inside frustum `k`, then the measure of the union is
+`Σ m(Sᵢ) + Σ (m(Fᵢ) − m(Sᵢ∩Fᵢ) − m(Sᵢ₊₁∩Fᵢ))`. -/
+theorem chain_union (m : Set α → ℝ) (hm : FinAdd m) (S F : ℕ → Set α) (n : ℕ)
+    (hA : ∀ k, k < n → before S F k ∩ F k ⊆ S k)
+    (hB : ∀ k, k < n → upTo S F k ∩ S (k+1) ⊆ F k) :
+    m (upTo S F n) = chainValue m S F n := by
+  induction n with
+  | zero => simp [upTo, before, chainValue]
+  | succ n ih =>
+    have ih' := ih (fun k hk => hA k (by omega)) (fun k hk => hB k (by omega))
+    have hAn := hA n (by omega)
+    have hBn := hB n (by omega)
+    have e1 : upTo S F (n+1) = upTo S F n ∪ (F n ∪ S (n+1)) := by
+      simp only [upTo, before]; ext x; simp only [Set.mem_union]; tauto
+    have e2 : upTo S F n ∩ (F n ∪ S (n+1)) = S n ∩ F n := by
+      ext x
+      simp only [Set.mem_inter_iff, Set.mem_union, upTo] at *
+      constructor
+      · rintro ⟨hx, hF | hS⟩
+        · rcases hx with hb | hs
+          · exact ⟨hAn ⟨hb, hF⟩, hF⟩
+          · exact ⟨hs, hF⟩
+        · have hF : x ∈ F n := hBn ⟨hx, hS⟩
+          rcases hx with hb | hs
+          · exact ⟨hAn ⟨hb, hF⟩, hF⟩
+          · exact ⟨hs, hF⟩
+      · rintro ⟨hs, hF⟩
+        exact ⟨Or.inr hs, Or.inl hF⟩
+    rw [e1, hm.union_inter, e2, hm.union_inter (F n) (S (n+1)), ih']
+    simp only [chainValue]
+    rw [Finset.sum_range_succ (fun i => m (S i)) (n+1),
+      Finset.sum_range_succ (fun i => m (F i) - m (S i ∩ F i) - m (S (i+1) ∩ F i)) n]
+    rw [Set.inter_comm (F n) (S (n+1))]
+    ring
+
+/-- the pairwise form of the hypotheses: non-adjacent parts do not touch (`= ∅`), consecutive spheres
+overlap only inside the frustum between them, consecutive frusta only inside the sphere between them,
+sphere `k-1` reaches frustum `k` at most inside sphere `k`. -/
+theorem chain_hyps_of_pairwise (S F : ℕ → Set α) (n : ℕ)
+    (hSS : ∀ k, k < n → S k ∩ S (k+1) ⊆ F k)
+    (hFF : ∀ k, k + 1 < n → F k ∩ F (k+1) ⊆ S (k+1))
+    (hSF : ∀ k, k + 1 < n → S k ∩ F (k+1) ⊆ S (k+1))
+    (hFS : ∀ k, k + 1 < n → F k ∩ S (k+2) ⊆ F (k+1))
+    (hfarSS : ∀ i j, i + 2 ≤ j → j ≤ n → S i ∩ S j = ∅)
+    (hfarSF : ∀ i j, i + 2 ≤ j → j < n → S i ∩ F j = ∅)
+    (hfarFS : ∀ i j, i + 3 ≤ j → j ≤ n → F i ∩ S j = ∅)
+    (hfarFF : ∀ i j, i + 2 ≤ j → j < n → F i ∩ F j = ∅) :
+    (∀ k, k < n → before S F k ∩ F k ⊆ S k) ∧ (∀ k, k < n → upTo S F k ∩ S (k+1) ⊆ F k) := by
+  -- membership in `before k` means membership in some earlier sphere or frustum
+  have hbefore : ∀ k x, x ∈ before S F k → ∃ i, i < k ∧ (x ∈ S i ∨ x ∈ F i) := by
+    intro k
+    induction k with
+    | zero => intro x hx; simp [before] at hx
+    | succ k ih =>
+      intro x hx
+      simp only [before, Set.mem_union] at hx
+      rcases hx with (hb | hs) | hf
+      · obtain ⟨i, hi, h⟩ := ih x hb
+        exact ⟨i, by omega, h⟩
+      · exact ⟨k, by omega, Or.inl hs⟩
+      · exact ⟨k, by omega, Or.inr hf⟩
+  constructor
+  · intro k hk x ⟨hb, hF⟩
+    obtain ⟨i, hi, h⟩ := hbefore k x hb
+    rcases h with hs | hf
+    · by_cases hik : i + 1 = k
+      · subst hik; exact hSF i hk ⟨hs, hF⟩
+      · have := hfarSF i k (by omega) hk
+        exact absurd (show x ∈ S i ∩ F k from ⟨hs, hF⟩) (by rw [this]; simp)
+    · by_cases hik : i + 1 = k
+      · subst hik; exact hFF i hk ⟨hf, hF⟩
+      · have := hfarFF i k (by omega) hk
+        exact absurd (show x ∈ F i ∩ F k from ⟨hf, hF⟩) (by rw [this]; simp)
+  · intro k hk x ⟨hu, hS⟩
+    simp only [upTo, Set.mem_union] at hu
+    rcases hu with hb | hs
+    · obtain ⟨i, hi, h⟩ := hbefore k x hb
+      rcases h with hs | hf
+      · have := hfarSS i (k+1) (by omega) (by omega)
+        exact absurd (show x ∈ S i ∩ S (k+1) from ⟨hs, hS⟩) (by rw [this]; simp)
+      · by_cases hik : i + 1 = k
+        · subst hik; exact hFS i hk ⟨hf, hS⟩
+        · have := hfarFS i (k+1) (by omega) (by omega)
+          exact absurd (show x ∈ F i ∩ S (k+1) from ⟨hf, hS⟩) (by rw [this]; simp)
+    · exact hSS k hk ⟨hs, hS⟩
+
+/-- the chain 0 → 1 → … → n as a rose (node `i` has the single child `i+1`) -/
+def chainRose : ℕ → ℕ → Rose
+  | i, 0 => .node i []
+  | i, k+1 => .node i [chainRose (i+1) k]
+
+theorem chainRose_id (i k : ℕ) : (chainRose i k).id = i := by cases k <;> simp [chainRose, Rose.id]
+
+/-- the ingredients the code computes at node `i` of the chain when volumes are measured by `m`:
+a leaf contributes its sphere; an inner node its sphere, the frustum to its child, the two
+sphere∩frustum overlaps, (the unused lens) and no cone pair (one child ⇒ no pair) -/
+def chainTerms (m : Set α → ℝ) (S F : ℕ → Set α) : Int → List Int → Terms ℝ :=
+  fun i kids => match kids with
+    | [] => ⟨m (S i.toNat), 0, 0, 0, 0, 0⟩
+    | _ :: _ => ⟨m (S i.toNat), m (F i.toNat), m (S i.toNat ∩ F i.toNat), m (S (i.toNat+1) ∩ F i.toNat),
+                 m (S i.toNat ∩ S (i.toNat+1)), 0⟩
+
+theorem sum_chainRose (m : Set α → ℝ) (S F : ℕ → Set α) (acc : Nat) (h3 : 3 ≤ acc) :
+    ∀ (k i : ℕ), sumRose (fun i ks => nodeVal acc (chainTerms m S F i ks)) (chainRose i k)
+      = (Finset.range (k+1)).sum (fun j => m (S (i+j)))
+        + (Finset.range k).sum (fun j => m (F (i+j)) - m (S (i+j) ∩ F (i+j)) - m (S (i+j+1) ∩ F (i+j))) := by
+  have hval : ∀ t : Terms ℝ, t.q = 0 → nodeVal acc t = t.s + t.f - t.p - t.c := by
+    intro t hq
+    by_cases h5 : 5 ≤ acc
+    · rw [node_level5 acc h5, hq]; ring
+    · exact node_level3 acc h3 (by omega) t
+  intro k
+  induction k with
+  | zero =>
+    intro i
+    simp [chainRose, sumRose, sumRoseL, chainTerms, hval]
+  | succ k ih =>
+    intro i
+    simp only [chainRose, sumRose, sumRoseL, List.map_cons, List.map_nil]
+    rw [ih (i+1)]
+    simp only [chainTerms]
+    rw [hval _ rfl]
+    rw [Finset.sum_range_succ' (fun j => m (S (i+j))) (k+1)]
+    rw [Finset.sum_range_succ' (fun j => m (F (i+j)) - m (S (i+j) ∩ F (i+j)) - m (S (i+j+1) ∩ F (i+j))) k]
+    simp only [Int.toNat_natCast, Nat.add_zero, zero_add]
+    have e1 : ∀ j, i + 1 + j = i + (j + 1) := by intro j; omega
+    simp only [e1]
+    ring
+
+/-- **C14, analytic levels ≥ 3 on a chain.**  For the chain `0 → 1 → … → n` (any table representing it),
+when each primitive term the code computes is the `m`-measure of the corresponding set and the
+property's spacing hypotheses hold, the reported volume is the measure of the union of all node
+spheres and connecting frusta. -/
+theorem chain_volume_is_union (acc : Nat) (h3 : 3 ≤ acc) (m : Set α → ℝ) (hm : FinAdd m) (S F : ℕ → Set α) (n : ℕ)
+    (hA : ∀ k, k < n → before S F k ∩ F k ⊆ S k)
+    (hB : ∀ k, k < n → upTo S F k ∩ S (k+1) ⊆ F k)
+    (ids pids : List Int) (h : Represents (chainRose 0 n) ids pids) :
+    treeVolume acc (chainTerms m S F) ids pids 0 (2 * (chainRose 0 n).size) = m (upTo S F n) := by
+  have := tree_volume_eq_sum acc (chainTerms m S F) ids pids (chainRose 0 n) h
+  rw [chainRose_id] at this
+  simp only [Nat.cast_zero] at this
+  rw [this, sum_chainRose m S F acc h3 n 0, chain_union m hm S F n hA hB]
+  simp [chainValue]
+end chain
+
+/-! ## geometry layer: the lens of two consecutive spheres lies inside the frustum between them -/
+
+/-- squared radius profiles about the axis: sphere 1 at `0`, sphere 2 at `d`, frustum between -/
+theorem lens_inside_frustum (r1 r2 d z : ℝ) (h1 : 0 ≤ r1) (h2 : 0 ≤ r2) (hd1 : r1 ≤ d) (hd2 : r2 ≤ d) (hd : 0 < d) :
+    (0 ≤ z ∧ z ≤ d → min (r1^2 - z^2) (r2^2 - (z - d)^2) ≤ (r1 + (r2 - r1) / d * z)^2) ∧
+    (z < 0 → r2^2 - (z - d)^2 < 0) ∧ (d < z → r1^2 - z^2 < 0) := by
+  refine ⟨?_, ?_, ?_⟩
+  · rintro ⟨hz0, hzd⟩
+    have ht0 : 0 ≤ z / d := div_nonneg hz0 hd.le
+    have ht1 : z / d ≤ 1 := by rw [div_le_one hd]; exact hzd
+    have e : r1 + (r2 - r1) / d * z = r1 * (1 - z / d) + r2 * (z / d) := by field_simp; ring
+    rw [e]
+    set t := z / d with ht
+    rcases le_total r1 r2 with h | h
+    · -- radius of the frustum ≥ r1 ≥ radius of sphere 1
+      have hge : r1 ≤ r1 * (1 - t) + r2 * t := by nlinarith
+      calc min (r1^2 - z^2) (r2^2 - (z - d)^2) ≤ r1^2 - z^2 := min_le_left _ _
+        _ ≤ r1^2 := by nlinarith [sq_nonneg z]
+        _ ≤ (r1 * (1 - t) + r2 * t)^2 := by nlinarith
+    · have hge : r2 ≤ r1 * (1 - t) + r2 * t := by nlinarith
+      calc min (r1^2 - z^2) (r2^2 - (z - d)^2) ≤ r2^2 - (z - d)^2 := min_le_right _ _
+        _ ≤ r2^2 := by nlinarith [sq_nonneg (z - d)]
+        _ ≤ (r1 * (1 - t) + r2 * t)^2 := by nlinarith
+  · intro hz; nlinarith
+  · intro hz; nlinarith
+
+-- non-vacuity: a 3-node chain table represents `chainRose 0 2`, and the hypotheses of `chain_union`
+-- hold for three intervals-as-sets on the line
+example : Represents (chainRose 0 2) [0, 1, 2] [-1, 0, 1] := by
+  refine ⟨?_, by decide⟩
+  simp [chainRose, Agrees, AgreesL, tableKids, Rose.id]
+
+-- a finitely additive set function exists (Dirac mass), so `FinAdd` hypotheses are satisfiable
+open Classical in
+example : FinAdd (fun A : Set ℕ => if (0:ℕ) ∈ A then (1:ℝ) else 0) := by
+  intro A B hd
+  by_cases ha : (0:ℕ) ∈ A <;> by_cases hb : (0:ℕ) ∈ B
+  · exact absurd hb (Set.disjoint_left.1 hd ha)
+  · simp [ha, hb]
+  · simp [ha, hb]
+  · simp [ha, hb]
+
+end C14
